@@ -59,4 +59,69 @@ def readsOf (n : Nat) (s : Bytes) : Nat → List Bytes
   | 0 => [s]
   | fuel + 1 => if s.length < n then [s] else s.take n :: readsOf n (s.drop n) fuel
 
+/-! ### a failing Read that carries data -/
+
+/-- The reader on the successful reads `reads` followed by a last Read that returns the
+bytes `lastData` TOGETHER with a non-EOF error (`io.Reader` allows `n > 0, err != nil`).
+readAnsiInputs looks at the error FIRST (`if err != nil { … return }`), and only the io.EOF
+branch decodes anything (the held-back left-over, not the buffer): so `lastData` is never
+decoded, never becomes a message and never enters the left-over. This is what the `X` lines
+of the `reader` correspondence stream pin. The final error is not io.EOF, hence `eof = false`. -/
+def readAllX (T : Table) (lens : List Nat) (reads : List Bytes) (_lastData : Bytes) :
+    Except Panic (List Out × Bytes) :=
+  readAll T lens false reads [] []
+
+/-! ### cancellation
+
+Every message is handed over by `select { case msgs <- msg: case <-ctx.Done(): return err }`:
+one cancellation point per message, AFTER detectOneMsg has produced it and after the
+`w == 0` test. `budget` = the number of sends that still succeed; the send that finds the
+budget at 0 finds the context done and the reader returns at once. -/
+
+/-- the inner loop with the cancellation point. Third component: `true` = returned because
+the context was done at a send (the message in hand is not sent, nothing after it is decoded;
+the second component is then the undecoded rest, which Go discards), `false` = the loop ended
+as `decodeLoop` does. -/
+def decodeLoopC (T : Table) (lens : List Nat) (more : Bool) :
+    Nat → Bytes → List Out → Nat → Except Panic (List Out × Bytes × Bool)
+  | 0, b, acc, _ => .ok (acc.reverse, b, false)
+  | fuel + 1, b, acc, budget =>
+    if b.isEmpty then .ok (acc.reverse, [], false)
+    else
+      match detectOneMsg T lens b more with
+      | .error e => .error e
+      | .ok (w, m) =>
+        if w == 0 then .ok (acc.reverse, b, false)
+        else
+          match budget with
+          | 0 => .ok (acc.reverse, b, true)          -- `case <-ctx.Done(): return`
+          | k + 1 =>
+            decodeLoopC T lens more fuel (b.drop w) ({ msg := m, consumed := b.take w } :: acc) k
+
+/-- the outer loop with the cancellation point: `acc` = the messages sent so far, `budget` =
+the sends that still succeed. When a read's inner loop returns because of the cancellation
+the remaining reads `cs` are not looked at: no further Read is issued. -/
+def readAllCAux (T : Table) (lens : List Nat) (eof : Bool) :
+    List Bytes → Bytes → List Out → Nat → Except Panic (List Out × Bool)
+  | [], left, acc, budget =>
+    if eof then
+      match decodeLoopC T lens false (left.length + 1) left [] budget with
+      | .error e => .error e
+      | .ok (out, _, c) => .ok (acc ++ out, c)
+    else .ok (acc, false)
+  | c :: cs, left, acc, budget =>
+    match decodeLoopC T lens (c.length == bufSize) ((left ++ c).length + 1) (left ++ c) [] budget with
+    | .error e => .error e
+    | .ok (out, left', cancelled) =>
+      if cancelled then .ok (acc ++ out, true)
+      else readAllCAux T lens eof cs left' (acc ++ out) (budget - out.length)
+
+/-- The reader when the context is cancelled after exactly `budget` messages have been handed
+over: the messages actually sent, and whether the reader stopped because of the cancellation
+(`true`: the send of message number `budget + 1` found the context done) or ran to the end
+of `reads` and the final error (`false`). -/
+def readAllC (T : Table) (lens : List Nat) (eof : Bool) (reads : List Bytes) (budget : Nat) :
+    Except Panic (List Out × Bool) :=
+  readAllCAux T lens eof reads [] [] budget
+
 end Tea.Input
